@@ -364,7 +364,9 @@ type c10Stats struct {
 }
 
 // c10Eval renders src under the 8 flag combinations and checks the 12 single-flag pairs.
-func c10Eval(g *c10Group, src []byte) (res []c10Result, st c10Stats) { return c10EvalMode(g, src, false) }
+func c10Eval(g *c10Group, src []byte) (res []c10Result, st c10Stats) {
+	return c10EvalMode(g, src, false)
+}
 
 // c10EvalMode: with decorate, the parsed tree gets a class attribute on every node through the public API (what an AST
 // transformer or a caller may do between Parse and Render) and the same tree is rendered by the 8 renderers; the relations
